@@ -91,7 +91,7 @@ contract(
 # ---- running average (C04): A' = alpha * (A or I) + (1 - alpha) * mean of the accumulated micro-batches
 for X in ('a', 'g'):
     contract(
-        f'{L}.update_{X}_factor', props=['C04', 'C05'],
+        f'{L}.update_{X}_factor', props=['C04', 'C05', 'C09'],
         params={'alpha': KDyn},
         requires=[('alpha_is_number', 'isinstance(alpha, (int, float)) and not isinstance(alpha, bool)'),
                   ('batch_square', f'implies(self._{X}_batch is not None, is_square(self._{X}_batch.shape))')],
